@@ -637,7 +637,11 @@ def tile(x, repetitions, /):
             x = expand_dims(x, axis=0)
     out = x
     for i, nrep in enumerate(repetitions):
-        if nrep > 1:
+        if nrep < 0:
+            raise ValueError("repetitions must be non-negative in tile")
+        elif nrep == 0:
+            out = out[(slice(None),) * i + (slice(0, 0),)]
+        elif nrep > 1:
             out = concat([out] * nrep, axis=i)
     return out
 
